@@ -190,11 +190,14 @@ def r3_no_effect_unless_applied(ctx, f, rep):
     # adjust_connection_state depends on num_active only
     ab = f.fn('Foca::adjust_connection_state')
     for p in ctx.paths(f, ab, 'none'):
-        calls = {c['id']: c for c in p.calls()}
+        isna = q.num_active_term(p)
+
+        def leaf(v):
+            return q.is_const(v) or isna(v) or q.is_self_field_load(v, 'connection_state') or v[0] == 'variant' or \
+                (v[0] == 'discr' and q.is_self_field_load(v[1], 'connection_state'))
         for c in p.conds():
             ex = c['expr']
-            ok_ = (ex[0] == 'discr' and q.is_self_field_load(ex[1], 'connection_state')) or \
-                  (ex[0] == 'binop' and ex[2][0] == 'call' and calls[ex[2][1]]['res'] == 'member::Members::num_active')
+            ok_ = leaf(ex) or (ex[0] == 'binop' and leaf(ex[2]) and leaf(ex[3]))
             if not ok_:
                 rep.violation('C11-R3', ab.nname, 'adjust-depends-on:' + q.describe(p, ex, ab), 'adjust_connection_state '
                               'depends on something other than connection_state and num_active()', site=c['span'])
